@@ -189,6 +189,12 @@ def run_spec(ctx, src="e2.cxx", exe="e2", prefix_filter="", flags="", per_timeou
     # one process per contract (path exploration and on-the-fly feasibility pruning are sequential inside a contract)
     lst = subprocess.run([binp, "--list"], capture_output=True, text=True, timeout=600)
     names = [n for n in lst.stdout.split("\n") if n and n.startswith(prefix_filter)]
+    dev_only = os.environ.get("VERIF_ONLY")  # development aid: restrict to the contracts whose name contains this text (never set by MANIFEST commands)
+    if dev_only:
+        names = [n for n in names if dev_only in n]
+        expect_min = 0
+        if not names:
+            return
     if lst.returncode != 0 or not names:
         ctx.undecided(ctx.pid + "/emit", "VC generation failed: no contract listed: " + (lst.stderr or lst.stdout)[-300:])
         return
